@@ -217,6 +217,19 @@ impl<F: Write + Seek> MiniAllocator<F> {
         self.directory.with_dir_entry_mut(stream_id, func)
     }
 
+    /// Like `with_dir_entry_mut()`, but restores the in-memory entry if it
+    /// cannot be written to the underlying file (for metadata changes).
+    pub fn try_with_dir_entry_mut<W>(
+        &mut self,
+        stream_id: u32,
+        func: W,
+    ) -> io::Result<()>
+    where
+        W: FnOnce(&mut DirEntry),
+    {
+        self.directory.try_with_dir_entry_mut(stream_id, func)
+    }
+
     /// Allocates a new mini chain with one sector, and returns the starting
     /// sector number.
     pub fn begin_mini_chain(&mut self) -> io::Result<u32> {
